@@ -5,6 +5,7 @@ import (
 	"go/constant"
 	"go/token"
 	"go/types"
+	"os"
 	"sort"
 	"strings"
 
@@ -141,6 +142,22 @@ func clauseKey(cl clause) string {
 	return strings.Join(parts, "|")
 }
 
+// clauseOrder: an order of clauses that does not depend on heap addresses, so that every
+// run of the checker sees guard facts in the same order (FDCHECK_SHUFFLE reverses it; rules
+// must not depend on it, which the determinism self-test exercises).
+func clauseOrder(cl clause) string {
+	var parts []string
+	for _, l := range cl {
+		k := l.v.Name()
+		if in, ok := l.v.(ssa.Instruction); ok && in.Block() != nil {
+			k = fmt.Sprintf("b%04d.i%04d", in.Block().Index, instrIndex(in))
+		}
+		parts = append(parts, fmt.Sprintf("%s:%v", k, l.pol))
+	}
+	sort.Strings(parts)
+	return strings.Join(parts, "|")
+}
+
 func tautology(cl clause) bool {
 	for i, a := range cl {
 		for _, b := range cl[i+1:] {
@@ -190,7 +207,12 @@ func (c *Ctx) guards(fn *ssa.Function) map[*ssa.BasicBlock][]clause {
 			sets = append(sets, c.edgeFacts(fi, p, b))
 		}
 		res := mergeClauseSets(sets)
-		sort.Slice(res, func(i, j int) bool { return clauseKey(res[i]) < clauseKey(res[j]) })
+		sort.SliceStable(res, func(i, j int) bool { return clauseOrder(res[i]) < clauseOrder(res[j]) })
+		if os.Getenv("FDCHECK_SHUFFLE") != "" {
+			for i, j := 0, len(res)-1; i < j; i, j = i+1, j-1 {
+				res[i], res[j] = res[j], res[i]
+			}
+		}
 		fi.facts[b] = res
 	}
 	fi.factDone = true
